@@ -117,6 +117,22 @@ func genC05(g *Rng, tier string, emit func(Op)) {
 			ms2 := append([]*big.Int{}, ms...)
 			ms2[i] = new(big.Int).Add(ms[i], bi(1))
 			emit(sigOp(kp.id, sig, ms2, "other-block", "reject"))
+			// an oversized message negated (in memory; no wire format carries a sign): the hash is over
+			// the magnitude, the block is another block
+			{
+				msn := append([]*big.Int{}, ms...)
+				j := g.intn(nb)
+				if r%2 == 0 {
+					msn[j] = g.exactBits(int(pk.Params.Lm) + 1 + g.intn(400))
+				}
+				if msn[j].BitLen() > int(pk.Params.Lm) {
+					if sgn, err := gabi.SignMessageBlock(kp.sk, pk, msn); err == nil {
+						neg := append([]*big.Int{}, msn...)
+						neg[j] = new(big.Int).Neg(msn[j])
+						emit(sigOp(kp.id, sgn, neg, "negated-oversized-message", "reject").with("nomodel", true).with("fkey", "C05/negated-oversized-message"))
+					}
+				}
+			}
 			if nb > 1 {
 				if ms[nb-1].Sign() == 0 {
 					// a trailing zero message contributes R^0 = 1: the shorter block is the same block
